@@ -284,6 +284,22 @@ class HandleTypestate(Client):
         if not isinstance(f, ast.Attribute):
             return None
         d = dotted(f.value)
+
+        def accessor(e):
+            """<accessor>(): a method of the object all of whose returns hand out one of its handles (the re-open check it may
+            contain has been followed by the engine when the call was evaluated)"""
+            try:
+                acc = ctx.scope.resolve_call(e)
+            except Exception:
+                return None
+            if acc is not None and getattr(acc, "self_name", None) is not None and hasattr(acc, "node"):
+                from ..util import returns_of
+                rets = [dotted(r.value) for r in returns_of(acc.node) if r.value is not None]
+                if rets and all(r and len(r) == 2 and r[0] == acc.self_name and r[1] in self.handles for r in rets) and len({r[1] for r in rets}) == 1:
+                    return (ctx.func.self_name, rets[0][1])
+            return None
+        if isinstance(f.value, ast.Call):
+            d = accessor(f.value) or d
         if isinstance(f.value, ast.Name) and not ctx.scope.is_self(f.value):
             # a local alias of the handle (`handle = self.file`): the same access, provided the alias is not older than a
             # re-open check that stands between its definition and this use (then it names the handle of the other process)
@@ -294,7 +310,11 @@ class HandleTypestate(Client):
                 fl = ctx.func.node._flow = Flow(ctx.func.node)
             df = fl.single_def(f.value)
             if df is not None and df.kind == "assign" and isinstance(df.value, ast.expr):
-                d2 = dotted(fl.expand(f.value))
+                ex2 = fl.expand(f.value)
+                d2 = accessor(ex2) if isinstance(ex2, ast.Call) else dotted(ex2)
+                if isinstance(ex2, ast.Call) and d2:
+                    d = d2           # handle = self._active_handle(): taken after the check the accessor makes
+                    d2 = None
                 if d2 and len(d2) == 2 and ctx.scope.is_self(ast.Name(id=d2[0], ctx=ast.Load())) and d2[1] in self.handles:
                     stale = any(ctx.scope.resolve_call(cl) is self.helper and before(ctx.func.node, df.value, cl)
                                 and before(ctx.func.node, cl, call) for cl in calls_in(ctx.func.node))
